@@ -18,6 +18,7 @@ func init() {
 		ruleT3(c, "C03.T3")
 		ruleSlot(c, "C03.T4")
 		ruleA2(c, "C03.T5")
+		ruleNoent(c, "C03.T6")
 	}
 }
 
@@ -503,4 +504,109 @@ func ruleSlot(c *Ctx, id string) {
 	if n == 0 {
 		R.Fail(id, "cache.LookupSlot|callers", P.Pos(look.Pos()), "the inode cache is used", "no caller found")
 	}
+}
+
+// ---------------------------------------------------------------- NOENT is the result of a lookup
+
+// ruleNoent: "no such name" is answered only where a lookup of the name, made
+// under the directory's lock, found nothing.  Anything else that goes wrong
+// with a name that was found (the object vanished during a relock, a
+// revalidation failed) must retry or report another error: in every
+// sequential order of the operations the name exists.
+func ruleNoent(c *Ctx, id string) {
+	V, P, R := c.V, c.P, c.R
+	R.Rule(id, "NFS3ERR_NOENT is produced only on the 'lookup found nothing' edge: every place in the server package where the constant flows into a status is dominated by LookupName(...) == NULLINUM", 2)
+	lookup := c.fn(id, "dir.LookupName")
+	if lookup == nil {
+		return
+	}
+	noent := constOfPkg(P, "nfstypes", "NFS3ERR_NOENT")
+	isLookupRes := func(v ssa.Value) bool {
+		for w := range bwdSources(stripConv(v)) {
+			if ex, ok := w.(*ssa.Extract); ok && ex.Index == 0 {
+				if cl, ok := ex.Tuple.(*ssa.Call); ok && cl.Call.StaticCallee() == lookup {
+					return true
+				}
+			}
+		}
+		return false
+	}
+	found := func(fn *ssa.Function, at *ssa.BasicBlock) bool {
+		return guardedBy(fn, at, func(cd Cond) (bool, bool) {
+			if cd.X == nil || cd.Y == nil {
+				return false, false
+			}
+			a, b := cd.X, cd.Y
+			if k, isk := constInt(a); isk && k == 0 {
+				a, b = b, a
+			}
+			if k, isk := constInt(b); !isk || k != 0 || !isLookupRes(a) {
+				return false, false
+			}
+			switch cd.Op {
+			case token.EQL:
+				return true, true
+			case token.NEQ:
+				return true, false
+			}
+			return false, false
+		})
+	}
+	n := 0
+	perFn := map[string]int{}
+	for _, fn := range P.RepoFuncs("nfs") {
+		if strings.HasSuffix(P.Pos(fn.Pos()), "_test.go") || strings.Contains(P.Pos(fn.Pos()), "nfs_clnt.go") {
+			continue
+		}
+		for _, b := range fn.Blocks {
+			for _, in := range b.Instrs {
+				check := func(at *ssa.BasicBlock, pos token.Pos) {
+					n++
+					k := FuncName(ownerOf(fn)) + "|NOENT"
+					perFn[k]++
+					key := k
+					if perFn[k] > 1 {
+						key = fmt.Sprintf("%s#%d", k, perFn[k])
+					}
+					R.Analysed[FuncName(fn)] = true
+					R.Check(found(fn, at), id, key, P.Pos(pos), "NFS3ERR_NOENT is chosen on the edge where dir.LookupName returned NULLINUM", "dominated by lookup == NULLINUM", "'no such name' is answered on a path where the name was found (e.g. the object vanished while the directory was unlocked for a relock): another client's rename over the name makes LOOKUP/REMOVE fail although the name exists in every order")
+				}
+				isNoent := func(v ssa.Value) bool {
+					k, isk := constInt(v)
+					nt, _ := types.Unalias(v.Type()).(*types.Named)
+					return isk && k == noent && nt != nil && nt.Obj().Name() == "Nfsstat3"
+				}
+				switch x := in.(type) {
+				case *ssa.Phi:
+					for i, e := range x.Edges {
+						if isNoent(e) {
+							check(b.Preds[i], x.Pos())
+						}
+					}
+				case *ssa.Store:
+					if isNoent(x.Val) {
+						check(b, x.Pos())
+					}
+				case *ssa.Return:
+					for _, r := range x.Results {
+						if isNoent(r) {
+							check(b, x.Pos())
+						}
+					}
+				default:
+					if cc := callCommon(in); cc != nil {
+						for _, a := range cc.Args {
+							if isNoent(a) {
+								check(b, in.Pos())
+							}
+						}
+					}
+				}
+			}
+		}
+	}
+	if n == 0 {
+		R.Fail(id, "nfs|NOENT sites", "?", "the server answers NFS3ERR_NOENT somewhere", "no use of the constant found")
+	}
+	_ = V
 }
